@@ -364,6 +364,10 @@ def _reach(scn, user, holder):
     return ("swarm" in scopes) if su == sh else ("cluster" in scopes)
 
 
+def _swarm(wid):
+    return wid.split(".")[0] if "." in wid else "localhost"
+
+
 def _same_scope(scn, a, b):
     """Do workers a and b belong to one reuse scope (the whole run; one swarm or one worker when the pool scope is narrowed)?"""
     scopes = str(scn.params.get("pool_scope", "own swarm cluster shared")).split()
@@ -431,7 +435,7 @@ def c05(scn, x):
                 # a removal concerns the dependants within the remover's reuse scope (workers of other scopes keep their own setup)
                 if any(g[0] == suffix and g[2] == state for g in u["gets"]) and _same_scope(scn, u["w"], e["w"]):
                     out.append({"what": f"state {state} of {suffix} removed by {e['w']} at t={e['t']} while dependant {u['short']} is running on {u['w']}",
-                                "signature": {"clause": "removed-while-running", "state": state}})
+                                "signature": {"clause": "removed-while-running", "state": state, "cross_swarm": _swarm(u["w"]) != _swarm(e["w"])}})
             scopes = str(scn.params.get("pool_scope", "own swarm cluster shared")).split()
 
             def reach(user, holder):
@@ -456,6 +460,7 @@ def c05(scn, x):
                                             f"starts on {u['w']} at t={u['t']} (pending at removal time)",
                                     "signature": {"clause": "removed-before-dependant", "cross_worker": u["w"] != e["w"],
                                                   "dependant_worker_involved_before_removal": involved, "lazy": bool(scn.lazy),
+                                                  "cross_swarm": _swarm(u["w"]) != _swarm(e["w"]),
                                                   "scope": "run" if ("swarm" in scopes and "cluster" in scopes) else ("swarm" if "swarm" in scopes else "worker")}})
     return out
 
